@@ -521,7 +521,17 @@ def gen_case(rng, fams, flavour=None):
     else:
         pv = corr_poses.gen_pose_vals(rng, estk, pfl)
         params = [float(x) for x in np.asarray(corr_poses.make_pose(estk, pv))]
-    return {'family': name, 'kinds': list(kinds), 'vals': vals, 'share': share, 'params': params, 'flavour': fl}
+    case = {'family': name, 'kinds': list(kinds), 'vals': vals, 'share': share, 'params': params, 'flavour': fl}
+    # circumstances that must not matter to the numerical Jacobians of THIS edge: some of its vertices are marked fixed (an anchor, or the first
+    # vertex after an earlier optimize()); another edge of the same class over the same vertices, with another measurement, was differentiated first
+    case['fixed'] = [rng.random() < 0.3 for _ in kinds]
+    if rng.random() < 0.3:
+        if isinstance(estk, tuple):
+            case['decoy_params'] = [x + rng.choice([1.0, -0.5, 2.25]) for x in params]
+        else:
+            pv2 = corr_poses.gen_pose_vals(rng, estk, 'typical')
+            case['decoy_params'] = [float(x) for x in np.asarray(corr_poses.make_pose(estk, pv2))]
+    return case
 
 
 def build_vertices(case):
@@ -542,7 +552,7 @@ def build_vertices(case):
                 pose = corr_poses.CLS[k](bufs[i])
             else:
                 pose = corr_poses.make_pose(k, v)
-        vs.append(Vertex(10 + 3 * i, pose))
+        vs.append(Vertex(10 + 3 * i, pose, fixed=bool((case.get('fixed') or [False] * 9)[i])))
     return vs
 
 
@@ -568,6 +578,11 @@ def run_real(case, exprs):
                 log.add(float(c1.copy()[2]))
             except Exception:  # noqa
                 pass
+    if case.get('decoy_params') is not None:
+        try:
+            ExprEdge([v.id for v in vs], np.eye(len(exprs)), np.array(case['decoy_params'], dtype=np.float64), exprs, vs, set()).calc_jacobians()
+        except Exception:  # noqa
+            pass
     e = ExprEdge([v.id for v in vs], np.eye(len(exprs)), np.array(case['params'], dtype=np.float64), exprs, vs, log)
     try:
         err0 = [float(x) for x in e.calc_error()]
